@@ -214,8 +214,10 @@ pub fn run_sb_check(id: &str, tier: &str, seed: u64) -> i32 {
             (a, n)
         }
         "C11" => {
-            let n = if quick { 100_000 } else { 3_000_000 };
-            let bound = 3;
+            // thorough: searches to depth 5 (null-move pruning active from iteration 4) and
+            // verifies claims up to mate in 4
+            let n = if quick { 100_000 } else { 500_000 };
+            let bound = if quick { 3 } else { 4 };
             (report::par_acc(n, |r| sb_checks::run_c11(seed, r, bound)), n)
         }
         _ => (Acc::new(), 0),
